@@ -287,6 +287,111 @@ var bitsFn = eng.Reg("C16.bitwriter", func(a bitsCase) *eng.Fail {
 	return nil
 })
 
+// chunkCase: a prefix of K bits (pattern P0) written in chunks of C bits, then one or two multi-bit writes, then Flush.
+// Patterns: 0 all zeros, 1 all ones, 2 alternating 10.., 3 zeros then a final 1, 4 a leading 1 then zeros.
+type chunkCase struct {
+	Writer        int // 0 HuffmanEncoder (writes of <= 16 bits), 1 GolombWriter (writes of <= 31 bits)
+	K, C, P0      int
+	N1, P1, N2, P2 int
+}
+
+func patBits(n, p int) []byte {
+	b := make([]byte, n)
+	for i := range b {
+		switch p {
+		case 1:
+			b[i] = 1
+		case 2:
+			b[i] = byte(1 - i%2)
+		case 3:
+			if i == n-1 {
+				b[i] = 1
+			}
+		case 4:
+			if i == 0 {
+				b[i] = 1
+			}
+		}
+	}
+	return b
+}
+
+func bitsVal(b []byte) uint32 {
+	var v uint32
+	for _, x := range b {
+		v = v<<1 | uint32(x)
+	}
+	return v
+}
+
+var chunkFn = eng.Reg("C16.bitwriter-chunks", func(a chunkCase) *eng.Fail {
+	var all []byte
+	var buf bytes.Buffer
+	var write func(v uint32, n int)
+	var flush func()
+	if a.Writer == 0 {
+		he := standard.NewHuffmanEncoder(&buf)
+		write = func(v uint32, n int) { he.WriteBits(v, n) }
+		flush = func() { he.Flush() }
+	} else {
+		gw := lsl.NewGolombWriter(&buf)
+		write = func(v uint32, n int) { gw.WriteBits(v, n) }
+		flush = func() { gw.Flush() }
+	}
+	pre := patBits(a.K, a.P0)
+	for i := 0; i < len(pre); i += a.C {
+		j := i + a.C
+		if j > len(pre) {
+			j = len(pre)
+		}
+		write(bitsVal(pre[i:j]), j-i)
+	}
+	all = append(all, pre...)
+	for _, w := range [][2]int{{a.N1, a.P1}, {a.N2, a.P2}} {
+		if w[0] == 0 {
+			continue
+		}
+		b := patBits(w[0], w[1])
+		write(bitsVal(b), w[0])
+		all = append(all, b...)
+	}
+	flush()
+	out := buf.Bytes()
+	if a.Writer == 0 {
+		hd := standard.NewHuffmanDecoder(bytes.NewReader(out))
+		for i, b := range all {
+			v, err := hd.ReadBits(1)
+			if err != nil || byte(v) != b {
+				return eng.Failf("huffman-writer-chunked-roundtrip", "%+v: bit %d of %d read back %d err %v (%x)", a, i, len(all), v, err, out)
+			}
+		}
+		return nil
+	}
+	// independent unstuffing reader: after a 0xFF byte the next byte carries 7 bits
+	var got []byte
+	for i := 0; i < len(out); i++ {
+		nb := 8
+		if i > 0 && out[i-1] == 0xFF {
+			nb = 7
+			if out[i]&0x80 != 0 {
+				return eng.Failf("golomb-writer-marker-emulation", "%+v → %x", a, out)
+			}
+		}
+		for k := nb - 1; k >= 0; k-- {
+			got = append(got, out[i]>>uint(k)&1)
+		}
+	}
+	if len(got) < len(all) {
+		return eng.Failf("golomb-writer-chunked-short", "%+v: %d bits written, %d present (%x)", a, len(all), len(got), out)
+	}
+	for i, b := range all {
+		if got[i] != b {
+			return eng.Failf("golomb-writer-chunked-roundtrip", "%+v: bit %d of %d is %d in the stream, %d was written (%x)", a, i, len(all), got[i], b, out)
+		}
+	}
+	return nil
+})
+
 func c16(c *eng.Ctx) {
 	c.Rule("E1 with independent strict marker walkers: every encoder x a union of the geometry/parameter spaces of C02-C07, C11, C12, C19 at 2-3 contents each, sizes needing both bytes of a 16-bit field, tile grids up to 64 tiles; component level: every bit string of length <= 20 (quick 16) through HuffmanEncoder, GolombWriter and the packet-header bit writer. distinct = distinct streams; non-trivial = entropy-coded segment longer than 2 bytes")
 	c.Assume("walkers in /verif/harness/ref (jpegwalk.go, j2kparse.go) implement Annex B of T.81/T.87 and Annex A of T.800 segment syntax")
@@ -313,10 +418,59 @@ func c16(c *eng.Ctx) {
 		}
 	}
 	c.Subspace("bit-writers", c.Evals()-before, true, fmt.Sprintf("every bit string of length 1..%d through standard.HuffmanEncoder, jpegls GolombWriter and the JPEG 2000 packet-header bioWriter: stuffing, no marker emulation, no trailing 0xFF, read-back and byte alignment", maxBits))
+	// multi-bit writes at every accumulator fill level
+	before = c.Evals()
+	chunkSpace(c, "C16.bitwriter-chunks", 0, 2, chunkFn)
+	c.Subspace("bit-writers-chunked", c.Evals()-before, c.Thorough(), chunkSpaceDesc)
 	for n := 1; n <= 164; n++ {
 		n := n
 		eng.Check(c, "C16.numpasses", n, numPassesFn)
 	}
+	c16Streams(c)
+}
+
+const chunkSpaceDesc = "HuffmanEncoder (writes <= 16 bits) and GolombWriter (writes <= 31 bits): a prefix of 0..72 bits {zeros, ones, alternating} written in chunks of {1,7,16,31} bits, then one or two multi-bit writes of boundary lengths x 5 patterns, Flush, read back with an independent unstuffing reader (quick: 1/3 of the two-write cases)"
+
+// chunkSpace enumerates the chunked-write cases for writers wrLo..wrHi-1.
+func chunkSpace(c *eng.Ctx, sub string, wrLo, wrHi int, fn func(chunkCase) *eng.Fail) {
+	type cj struct{ wr, k, cs, p0 int }
+	var cjs []cj
+	for wr := wrLo; wr < wrHi; wr++ {
+		for k := 0; k <= 72; k++ {
+			for _, cs := range []int{1, 7, 16, 31} {
+				if wr == 0 && cs > 16 {
+					continue
+				}
+				for p0 := 0; p0 < 3; p0++ {
+					cjs = append(cjs, cj{wr, k, cs, p0})
+				}
+			}
+		}
+	}
+	lens := [][]int{{1, 2, 7, 8, 9, 15, 16}, {1, 2, 7, 8, 9, 15, 16, 17, 23, 24, 25, 30, 31}}
+	c.Par(len(cjs), func(i int) {
+		j := cjs[i]
+		for _, n1 := range lens[j.wr] {
+			for p1 := 0; p1 < 5; p1++ {
+				for _, n2 := range append([]int{0}, lens[j.wr]...) {
+					for p2 := 0; p2 < 5; p2++ {
+						if n2 == 0 && p2 > 0 {
+							continue
+						}
+						if c.Quick() && n2 != 0 && (n1+n2+p1+p2+j.k)%3 != 0 {
+							continue
+						}
+						eng.Check(c, sub, chunkCase{j.wr, j.k, j.cs, j.p0, n1, p1, n2, p2}, fn)
+					}
+				}
+			}
+		}
+	})
+}
+
+func c16Streams(c *eng.Ctx) {
+	before := c.Evals()
+	_ = before
 	// streams
 	var jobs []wfCase
 	sizes := [][2]int{{1, 1}, {2, 3}, {7, 9}, {8, 8}, {17, 33}, {64, 64}, {256, 1}, {1, 256}, {257, 2}, {300, 5}}
